@@ -1,5 +1,6 @@
 """C12 - TCP behaviour is independent of absolute sequence numbers (mod 2^32)."""
 from vf.parts import kani_part
+from vf.mirxparts import tcb_forged_part
 
 EXPLANATION = ('Kani decides the comparison primitives over all 32-bit arguments; mirx (when built) decides shift '
                'invariance of the TCB step functions relationally.')
@@ -15,13 +16,16 @@ def run(ctx):
         bounds='all 2^32 x 2^31 (a, d) pairs; mod_bounded: all a, b, interval length < 2^31 - 1, both comparison kinds; '
                'translation invariance: all a, b, c, k in 0..2^32; loop-free, no unwinding bound needed',
         outside='nothing inside the primitives; TCB-level invariance is the mirx part')
+    yield tcb_forged_part(ctx, lambda k: ':c12:' in k, name='tcb-shift-invariance', shift=True)
 
 MANIFEST = {
-    'engine': 'kani',
-    'technique': 'bounded model checking (Kani/CBMC, SAT) of the real comparison primitives over all 32-bit inputs',
+    'engine': 'kani + mirx',
+    'technique': 'Kani/CBMC (SAT) on the comparison primitives over all 32-bit inputs; relational (2-safety) symbolic execution of the real Tcb MIR with z3 for shift invariance',
     'level_text': 'SAT-decided over every 32-bit argument tuple of mod_lt/mod_leq/mod_gt/mod_geq/mod_bounded (loop-free code, so the '
                   'bound is the full input space): agreement with the mathematical circular order for distances < 2^31, strict/non-strict '
                   'consistency, bounded-between vs a reference interval test, invariance under adding any k to all arguments.',
-    'level_note': 'Trusts Kani/CBMC and its model of core; harness module appended to a scratch copy of modular_cmp.rs. TCB-level shift '
-                  'invariance (second half of the statement) is decided by the mirx part when present in the evidence; otherwise only the primitives are claimed.',
+    'level_note': 'Primitives: full input space (loop-free). TCB: every unit history (16 situation/endpoint pairs x flag classes, one symbolic forged segment, '
+                  'then segments()/receive()) is executed twice inside one path - ISNs (issA, issB) and (issA+k1, issB+k2) with k1, k2 symbolic - and z3 decides that '
+                  'results, states, emitted segments (flags, lengths, windows, relative seq/ack), delivered data and SND/RCV variables are equal up to the shifts. '
+                  'Exception (RFC 9293 3.10.7.1): the absolute SEQ=0 of resets sent from CLOSED. Trusts Kani/CBMC, mirx + std models, z3; violations replayed natively.',
 }
